@@ -815,6 +815,72 @@ func init() {
 	})
 }
 
+// Couchbase heart-beat membership (real, on the simulated node; child process per history): an instance behind this member
+// disappears and a new one registers within one monitor round - the set of instances changes, this member's number and the
+// group size do not: nothing is announced to the stream, no interruption (the executor is C10's Couchbase unit)
+func TestC11_CouchbaseSwap(t *testing.T) {
+	n := scale(8, 240)
+	_, nsh := shard()
+	var scs []c10CB
+	rapid.Check(t, func(rt *rapid.T) {
+		if len(scs) > 0 {
+			return
+		}
+		for i := 0; i < (n+nsh-1)/nsh; i++ {
+			sc := c10CB{}
+			for j, k := 0, rapid.IntRange(2, 5).Draw(rt, "members"); j < k; j++ {
+				sc.Ops = append(sc.Ops, c10Op{Join: true})
+			}
+			sc.Ops = append(sc.Ops, c10Op{Swap: rapid.IntRange(1, 8).Draw(rt, "swapwho")})
+			scs = append(scs, sc)
+		}
+	})
+	out := make([]string, len(scs))
+	tim := make([]bool, len(scs))
+	var wg sync.WaitGroup
+	sem := make(chan struct{}, 8)
+	for i := range scs {
+		wg.Add(1)
+		go func(i int) {
+			defer wg.Done()
+			sem <- struct{}{}
+			defer func() { <-sem }()
+			out[i], tim[i] = c10ExecCB(scs[i])
+			if tim[i] || strings.Contains(out[i], "died") {
+				out[i], tim[i] = c10ExecCB(scs[i])
+			}
+		}(i)
+	}
+	wg.Wait()
+	for i, d := range out {
+		if strings.HasPrefix(d, "HARNESS") {
+			t.Fatalf("harness trouble: %s", d)
+		}
+		if tim[i] {
+			countDiscarded("C11")
+			continue
+		}
+		if strings.Contains(d, "repeating the membership in effect") {
+			violation(t, "C11", "c11cbswap", scs[i], "%s", d)
+		}
+		record("C11", scs[i], true, "couchbase_instance_swap_cases")
+	}
+}
+
+func init() {
+	registerReplay("c11cbswap", func(raw json.RawMessage) string {
+		var sc c10CB
+		if err := json.Unmarshal(raw, &sc); err != nil {
+			return err.Error()
+		}
+		d, timing := c10ExecCB(sc)
+		if timing || !strings.Contains(d, "repeating the membership in effect") {
+			return ""
+		}
+		return d
+	})
+}
+
 func TestC11_Stress(t *testing.T) {
 	sc := c11Stress{Rebalances: scale(4000, 40000), Spinners: 8}
 	if d := c11ExecStress(sc); d != "" {
